@@ -530,58 +530,13 @@ def cov_merge(p, res):
     slots = set(node_cls.slots or ())
     if slots != {'type', 'name', 'value', 'repeat', 'attributes', 'children', 'self_closing'}:
         raise AnalysisError('COV-MERGE: AbbreviationNode slots changed: %s' % sorted(slots))
-    mg = p.func('markup.snippets.merge')
-    frm, to = mg.params[:2]
-    for slot, guard in (('self_closing', None), ('value', None), ('repeat', None)):
-        stores = [n for n in mg.body_nodes() if isinstance(n, ast.Assign) and src_of(n.targets[0]) == '%s.%s' % (to, slot)]
-        if not stores:
-            res.bad(F('COV-MERGE', mg, mg.node, '%s.%s = ...' % (to, slot), 'the alias\' %s is not transferred to the definition node' % slot))
-            continue
-        st = stores[0]
-        par = p.parents(mg).get(st)
-        if slot == 'self_closing':
-            okk = src_of(st.value) in ('True', '%s.self_closing' % frm) and isinstance(par, ast.If) and src_of(par.test) == '%s.self_closing' % frm
-        elif slot == 'value':
-            okk = src_of(st.value) == '%s.value' % frm and isinstance(par, ast.If) and src_of(par.test) == '%s.value is not None' % frm
-        else:
-            okk = src_of(st.value) == '%s.repeat' % frm and isinstance(par, ast.If) and src_of(par.test) == '%s.repeat' % frm
-        if okk:
-            res.ok('merge: %s' % src_of(par).replace('\n', ' '))
-        else:
-            res.bad(F('COV-MERGE', mg, st, src_of(par) if par is not None else src_of(st), 'transfer of %s has an unexpected guard or source' % slot))
-    rs = p.func('markup.snippets.resolve_snippets.resolve')
-    loops = [n for n in rs.body_nodes() if isinstance(n, ast.For) and src_of(n.iter) == 'snippet_abbr.children']
-    if len(loops) != 1:
-        raise AnalysisError('COV-MERGE: resolve() no longer loops over snippet_abbr.children')
-    lp = loops[0]
-    tv = src_of(lp.target)
-    body_calls = [src_of(s) for s in lp.body]
-    if 'merge(child, %s)' % tv in body_calls:
-        res.ok('merge(child, top_node) for every top-level node of the definition')
-    else:
-        res.bad(F('COV-MERGE', rs, lp, 'for %s in snippet_abbr.children: ...' % tv, 'merge(child, top_node) must run for every top-level node of the definition (inside the loop)'))
-    s = src_of(lp)
-    if ('%s.attributes = from_attr + to_attr' % tv) in s and ('%s.attributes = to_attr + from_attr' % tv) in s and 'if is_reversed:' in s and 'if child.attributes:' in s:
-        res.ok('alias attributes are appended to (prepended under reverseAttributes) the definition attributes of every top node')
-    else:
-        res.bad(F('COV-MERGE', rs, lp, 'attribute transfer in resolve()', 'attributes of the alias must be concatenated after the definition\'s (before, when reversed) on every top-level node'))
-    # children of the alias go to the deepest node of the definition: last child chain
-    fd = p.func('markup.utils.find_deepest')
-    s = src_of(fd.node)
-    if 'while node.children:' in s and 'node = node.children[-1]' in s and 'return (parent, node)' in s:
-        res.ok('find_deepest follows children[-1]')
-    else:
-        res.bad(F('COV-MERGE', fd, fd.node, 'find_deepest body', 'the deepest node is found by following the *last* child'))
-    wr = p.func('markup.snippets.walk_resolve')
-    s = src_of(wr.node)
-    need = ['children += resolved.children', 'deepest = find_deepest(resolved)', 'deepest[1].children += walk_resolve(child, resolve, config)',
-            'children.append(child)', 'child.children = walk_resolve(child, resolve, config)', 'node.children = children']
-    for w in need:
-        if w in s:
-            res.ok('walk_resolve: ' + w)
-        else:
-            res.bad(F('COV-MERGE', wr, wr.node, w, 'splicing of resolved snippet nodes changed'))
-    res.require_floor(12)
+    from .tablecheck import check_table
+    check_table(p, res, 'COV-MERGE', 'markup.snippets.merge', "the alias' self_closing flag, value (when not None) and repeater are transferred to the definition node")
+    check_table(p, res, 'COV-MERGE', 'markup.snippets.resolve_snippets.resolve',
+                'cycle guard (tested before the push, popped after the recursive walk); attributes of the alias are concatenated after the definition\'s (before, when reversed) and merge(child, top_node) runs for every top-level node of the definition')
+    check_table(p, res, 'COV-MERGE', 'markup.snippets.walk_resolve', 'resolved definition nodes replace the alias; the alias\' children go below the deepest node of the definition; unresolved nodes are kept and walked')
+    check_table(p, res, 'COV-MERGE', 'markup.utils.find_deepest', 'the deepest node is found by following the *last* child')
+    res.require_floor(4)
 
 
 # ------------------------------------------------------------------- CENSUS
